@@ -30,6 +30,16 @@ extern "C" {
 }
 const RLIMIT_AS: i32 = 9;
 
+/// `#c` marker written (appended and visible at once) BEFORE a case is executed: if the case aborts the
+/// process or never returns, the check attributes it to this line, which carries the whole request
+pub fn mark(s: &str) {
+    if let Ok(p) = std::env::var("PVH_OUT") {
+        if let Ok(mut f) = std::fs::OpenOptions::new().append(true).open(p) {
+            let _ = writeln!(f, "#c {}", s);
+        }
+    }
+}
+
 fn main() {
     // address-space limit: an operand-sized allocation must fail fast instead of exhausting the host
     let gb: u64 = std::env::var("PVH_MEM_GB").ok().and_then(|s| s.parse().ok()).unwrap_or(4);
@@ -42,7 +52,11 @@ fn main() {
     let args: Vec<String> = std::env::args().collect();
     // protocol lines go to the file named by PVH_OUT (pushr itself prints to stdout in places)
     let sink: Box<dyn Write> = match std::env::var("PVH_OUT") {
-        Ok(p) => Box::new(std::fs::File::create(p).expect("PVH_OUT")),
+        Ok(p) => {
+            // truncate, then append only: `mark` appends to the same file through its own handle
+            drop(std::fs::File::create(&p).expect("PVH_OUT"));
+            Box::new(std::fs::OpenOptions::new().append(true).open(p).expect("PVH_OUT"))
+        }
         Err(_) => Box::new(std::io::stdout()),
     };
     let mut w = std::io::BufWriter::with_capacity(1 << 20, sink);
